@@ -83,8 +83,23 @@ PROPS["C14"] = {
     ],
 }
 
+def _c10_extra(prop, tier):
+    """The static precondition of the 'on any number of threads' clause: CArc / CArcSome may cross or be shared between
+    threads only if the Arc they wrap may (SMT over the impl clauses, rustc as oracle - C09's machinery)."""
+    import sys as _sys
+    _sys.path.insert(0, os.path.join(os.path.dirname(os.path.dirname(os.path.abspath(__file__))), "smt"))
+    import c09
+    r = c09.wrapper_soundness(("CArc", "CArcSome"))
+    return {"coverage": {"send_sync_wrapper_soundness": {"queries": r["queries"], "rustc_cross_check": r.get("rustc"),
+                                                         "solver_time_s": round(r["solver_s"], 3)}},
+            "violations": [("%s is %s although Arc<T> is not (model %s, confirmed by rustc)" % (q["rule"][8:], q["marker"], q["model"]), q)
+                           for q in r["violations"]],
+            "inconclusive": r["inconclusive"]}
+
+
 PROPS["C10"] = {
     "crate": "rt",
+    "extra": _c10_extra,
     "groups": [
         {"id": "arc",
          "quick": ["c10::c10_pool_k2", "c10::c10_pool_k3", "c10::c10_from_value_last_handle_drops", "c10::c10_empty_is_inert",
@@ -108,6 +123,7 @@ PROPS["C15"] = {
         {"id": "feed",
          "quick": ["c15::c15_feed_into_closure_4", "c15::c15_feed_into_mut_closure_4", "c15::c15_extend_closure_4",
                    "c15::c15_collect_vec_3", "c15::c15_collect_extend_3", "c15::c15_call_forwards",
+                   "c15::c15_feed_twice_same_callback", "c15::c15_collect_vec_beyond_capacity",
                    "c15::c15_items_dropped_once", "c15::c15_citer_same_items_4", "c15::c15_citer_interleave_4",
                    "c15::c15_citer_items_owned_once", "c15::c15_citer_unbounded_source", "c15::c15_negative_twin"],
          "thorough_adds": ["c15::c15_feed_into_closure_6", "c15::c15_feed_into_mut_closure_6", "c15::c15_extend_closure_6",
@@ -168,7 +184,7 @@ PROPS["C11"] = {
          # "its buffer is always grown and freed through the functions stored in it": a vector fabricated with foreign
          # reserve/drop functions over non-heap memory (shared with C05)
          ["c05::c05_foreign_cvec_i0", "c05::c05_foreign_cvec_i1", "c05::c05_foreign_cvec_i2"],
-         "thorough_adds": _c11(_C11["step_t"]), "timeout": 1800, "mem_gb": 10},
+         "thorough_adds": _c11(_C11["step_t"]), "timeout": 1800, "mem_gb": 10, "cbmc_args": LEAK},
         {"id": "seq", "quick": _c11(_C11["seq2_q"]), "thorough_adds": _c11(_C11["seq2_t"]) + _c11(_C11["seq3_t"]),
          "timeout": 1800, "mem_gb": 10},
     ],
